@@ -779,7 +779,7 @@ def gen_src(unit_name):
 
 
 GEN_SRC = {n: gen_src(n) for n in ("SrcKmpLps", "SrcShiftAndMasks", "SrcHorspoolNew", "SrcFenwick", "SrcBitEnc", "SrcBwt", "SrcPrescan")}
-GEN_SRC.update({n: gen_src(n) for n in ("SrcOrf", "SrcGc", "SrcAlphabet", "SrcQGrams", "SrcQGramIndex")})       # dialect "cf" (tools/rs2lean_cf.py)
+GEN_SRC.update({n: gen_src(n) for n in ("SrcOrf", "SrcGc", "SrcAlphabet", "SrcQGrams", "SrcQGramIndex", "SrcIit")})       # dialect "cf" (tools/rs2lean_cf.py)
 
 
 # ------------------------------------------------------------------------------------------ theorem modules built here
@@ -833,6 +833,7 @@ EXTRACTORS = {
     "C08": [GEN_SRC["SrcKmpLps"], GEN_SRC["SrcShiftAndMasks"], GEN_SRC["SrcHorspoolNew"]],
     "C18": [GEN_SRC["SrcFenwick"], GEN_SRC["SrcBitEnc"]],
     "C19": [GEN_SRC["SrcQGrams"], GEN_SRC["SrcQGramIndex"]],
+    "C07": [GEN_SRC["SrcIit"]],
 }
 
 
